@@ -41,8 +41,8 @@ PLANS["C11"] = {
     "thorough": [J("reqresp", "p=3,f=2,s=2,sel=1", 900), J("c11-idwrap", "thorough", 120, test="TestE3", shards=1)],
 }
 PLANS["C12"] = {
-    "quick": [J("shutdown1", "p=1,f=1,s=1", 60), J("shutdown1lazy", "p=1,f=1", 40), J("shutdownbig", "p=1,s=2", 40), J("shutdown2", "p=1,f=1,sel=1", 60), J("shutdown4", "p=1,f=1", 40), J("shutdown5", "p=1,f=1,s=1", 40)],
-    "thorough": [J("shutdown1", "p=2,f=1,s=2", 300), J("shutdown1lazy", "p=2,f=1,s=1", 300), J("shutdownbig", "p=2,s=2,f=1", 300), J("shutdown2", "p=2,f=1,s=2,sel=1", 300), J("shutdown3", "p=2,f=1,s=2,sel=1", 300), J("shutdown4", "p=2,f=1,s=2,sel=1", 300), J("shutdown5", "p=2,f=1,s=2,sel=1", 300)],
+    "quick": [J("shutdown1", "p=1,f=1,s=1", 60), J("shutdown1lazy", "p=1,f=1", 40), J("shutdownbig", "p=1,s=2", 40), J("shutdown2", "p=1,f=1,sel=1", 60), J("shutdown4", "p=1,f=1", 40), J("shutdown5", "p=1,f=1,s=1", 40), J("shutdown6", "p=1,f=2", 40)],
+    "thorough": [J("shutdown1", "p=2,f=1,s=2", 300), J("shutdown1lazy", "p=2,f=1,s=1", 300), J("shutdownbig", "p=2,s=2,f=1", 300), J("shutdown2", "p=2,f=1,s=2,sel=1", 300), J("shutdown3", "p=2,f=1,s=2,sel=1", 300), J("shutdown4", "p=2,f=1,s=2,sel=1", 300), J("shutdown5", "p=2,f=1,s=2,sel=1", 300), J("shutdown6", "p=2,f=2,s=1", 300)],
 }
 
 PLANS["C04"] = {
@@ -54,8 +54,8 @@ PLANS["C06"] = {
     "thorough": [J("inbound32", "f=2", 600), J("inbound32skip", "f=2", 600), J("inbound64", "f=2", 600), J("inboundctl", "f=3", 600), J("inboundcut", "f=3", 600), J("c06-lengths", "thorough", 300, test="TestE3", shards=1)],
 }
 PLANS["C07"] = {
-    "quick": [J("acktiming", "p=1,f=1,s=1", 90), J("qos2in", "f=1,c=1", 40)],
-    "thorough": [J("acktiming", "p=2,f=2,s=2", 900), J("qos2in", "f=2,c=1", 400)],
+    "quick": [J("acktiming", "p=1,f=1,s=1", 90), J("qos2in", "f=1,c=1", 40), J("ackresend", "p=1,f=1,s=1", 40)],
+    "thorough": [J("acktiming", "p=2,f=2,s=2", 900), J("qos2in", "f=2,c=1", 400), J("ackresend", "p=2,f=2,s=1", 400)],
 }
 
 PLANS["C17"] = {
